@@ -174,13 +174,18 @@ def cargo_env():
 
 
 def build_harness(which="repo"):
-    """Builds the test binaries of ntp-proto and ntpd (which='repo') from /repo's current working
-    tree with the guard cfg on, or the stand-alone statime harness (which='ext').
+    """Builds the test binaries of ntp-proto and ntpd (which='repo') or of statime-algo (which='algo': hook in
+    statime-algo/src/estimator.rs, crate name statime_algo) from /repo's current working tree with the guard
+    cfg on, or the stand-alone statime harness (which='ext').
     Returns {crate_name: path_to_test_binary}."""
     if which in _BUILD_CACHE:
         return _BUILD_CACHE[which]
     t0 = time.time()
-    if which == "repo":
+    if which == "algo":
+        cmd = ["cargo", "test", "--offline", "--manifest-path", os.path.join(REPO, "Cargo.toml"),
+               "-p", "statime-algo", "--lib", "--no-run", "--message-format=json"]
+        env = cargo_env()
+    elif which == "repo":
         cmd = ["cargo", "test", "--offline", "--manifest-path", os.path.join(REPO, "Cargo.toml"),
                "-p", "ntp-proto", "-p", "ntpd", "--lib", "--no-run", "--message-format=json",
                "--features", "ntp-proto/__internal-fuzz,ntp-proto/__internal-test"]
